@@ -1,3 +1,5 @@
 /- C11 — property theorems only (helper lemmas live in `Rooc/Proofs`). -/
+import Lean
+import Rooc.Syntax.Format
 namespace Rooc.Props.C11
 end Rooc.Props.C11
